@@ -52,17 +52,10 @@ def run(tier, replay):
         if not r.ok:
             raise vlib.Inconclusive("TLC: %s %s" % (r.violated, (r.error or "")[-1500:]))
         log("TLC Discovery MaxLen=%d: %d distinct states, invariants hold" % (maxlen, r.distinct))
-        bad_records = bad_contacts = None
-        for line in r.out.splitlines():
-            if line.startswith('<<"BADRECORDS"'):
-                bad_records = line
-            if line.startswith('<<"BADCONTACTS"'):
-                bad_contacts = line
-        if bad_records is None or bad_contacts is None:
-            raise vlib.Inconclusive("TLC did not report on the records")
+        ids = vlib.printed_set(r.out, "BADRECORDS")
+        bad_contacts = "{}" if not vlib.printed_set(r.out, "BADCONTACTS") else "{1}"
         records = vlib.read_ndjson(rec)
-        if "{}" not in bad_records:
-            ids = [int(x) for x in bad_records.split("{")[1].split("}")[0].split(",") if x.strip()]
+        if ids:
             for rr in records:
                 if rr["id"] in ids:
                     V.violation("random list: output is not the distinct matching entries, each once (Ref evaluated by TLC)",
